@@ -20,7 +20,7 @@ from harness import common, scriptcheck, scriptlib as sl
 
 PROP = 'C02'
 THEOREMS = ['C02_equal_zero', 'C02_zero_sim', 'C02_partial', 'C02_refuted_D4', 'C02_refuted_D16', 'C02_classified',
-            'C02_spec_sound', 'C02_model_priced', 'C02_zsim_data']
+            'C02_spec_sound', 'C02_model_priced', 'C02_zsim_data', 'C02_exit_flat', 'C02_exit_cost', 'C02_exit', 'C02_exit_cli']
 HOLDS = 'holds_C02_lib'
 # (finding id, Gallina class predicate, text)
 KF = [('D4', 'kf_cross_type_py_equal',
